@@ -72,23 +72,24 @@ type Area struct {
 type Ctx struct {
 	Thorough bool
 
-	mark   []byte
-	seq    uint64
-	evals  int64
-	nontr  int64
-	proto  *json.Encoder
-	pmu    sync.Mutex
-	mode   string
-	upto   uint64
-	mEntry string
-	mInput string
-	hit    bool
-	keyOf  map[string]string // entry+"\x00"+panic text -> key
-	skip   map[uint64]bool   // calls not to execute (already reported as hang/fatal)
-	entIDs map[string]uint64
-	cur    atomic.Pointer[curCall] // the call in flight (read by the SIGUSR1 handler)
-	perKey map[string]int
-	sample []string
+	mark         []byte
+	seq          uint64
+	evals        int64
+	nontr        int64
+	proto        *json.Encoder
+	pmu          sync.Mutex
+	mode         string
+	upto         uint64
+	mEntry       string
+	mInput       string
+	hit          bool
+	lastPanicked bool
+	keyOf        map[string]string // entry+"\x00"+panic text -> key
+	skip         map[uint64]bool   // calls not to execute (already reported as hang/fatal)
+	entIDs       map[string]uint64
+	cur          atomic.Pointer[curCall] // the call in flight (read by the SIGUSR1 handler)
+	perKey       map[string]int
+	sample       []string
 }
 
 type protoMsg struct {
@@ -127,14 +128,21 @@ func (c *Ctx) emit(m protoMsg) {
 	c.pmu.Unlock()
 }
 
-// NonTrivial counts n cases as non-trivial (see each part's Rule).
-func (c *Ctx) NonTrivial(n int) { c.nontr += int64(n) }
+// NonTrivial counts n cases as non-trivial (see each part's Rule). It is
+// called right after the Call it refers to and does not count a call that
+// panicked.
+func (c *Ctx) NonTrivial(n int) {
+	if !c.lastPanicked {
+		c.nontr += int64(n)
+	}
+}
 
 // Call runs fn as one case. describe is only evaluated when the case has to be
 // reported. It returns true if fn panicked.
 func (c *Ctx) Call(entry string, describe func() string, fn func()) (panicked bool) {
 	c.seq++
 	c.evals++
+	c.lastPanicked = false
 	id, ok := c.entIDs[entry]
 	if !ok {
 		id = uint64(len(c.entIDs) + 1)
@@ -166,6 +174,7 @@ func (c *Ctx) Call(entry string, describe func() string, fn func()) (panicked bo
 	defer func() {
 		if v := recover(); v != nil {
 			panicked = true
+			c.lastPanicked = true
 			c.onPanic(entry, describe, v)
 		}
 		if c.hit {
